@@ -148,7 +148,7 @@ class Slot(object):
         self.world = world
         self.idx = idx
         self.spec = spec
-        self.frames = []       # one Counter of invocation counts per active evaluation
+        self.frames_by_thread = {}   # thread ident -> stack of Counters (invocation counts per active evaluation)
         self.host_objects = []  # persistent host-supplied objects (for H3 snapshots)
         self.listener_fns = {}
         self.parser = Parser(debug=bool(spec.get('debug', False)))
@@ -223,6 +223,14 @@ class Slot(object):
             self.parser.on(event, listener)
         return listener
 
+    @property
+    def frames(self):
+        tid = threading.get_ident()
+        st = self.frames_by_thread.get(tid)
+        if st is None:
+            st = self.frames_by_thread[tid] = []
+        return st
+
     def next_inv(self, key):
         fr = self.frames[-1] if self.frames else self.world.idle_frame
         n = fr[key]
@@ -285,6 +293,18 @@ class World(object):
             if act['obj'] is not None:
                 setter(act['obj'])
             return None
+        if a == 'set_in_thread':
+            # the listener hands its setter to a worker thread and waits for it (thread pool, fetch with timeout)
+            fired['setter_called_from_worker_thread'] += 1
+            objs = [V.dec(x) for x in act['v']]
+            if setter is not None:
+                def work():
+                    for o in objs:
+                        setter(o)
+                th = threading.Thread(target=work, daemon=True)
+                th.start()
+                th.join()
+            return None
         if a == 'set':
             objs = act['_o']
             if len(objs) > 1:
@@ -343,6 +363,32 @@ class World(object):
                 return act.get('_o')
             if act.get('_o') is not None:
                 setter(act['_o'])
+            return None
+        if a == 'nested_thread':
+            # the callback delegates a nested evaluation to a worker thread and waits for it
+            if self.depth > act.get('maxdepth', 99):
+                fired['nested_suppressed_by_depth'] += 1
+                return None
+            fired['nested_in_worker_thread'] += 1
+            box = {}
+            parent_depth = self.depth
+
+            def work():
+                self.depths[threading.get_ident()] = parent_depth     # nesting depth carries over to the worker
+                try:
+                    box['res'] = self.evaluate(act['slot'], act['f'])
+                except BaseException as e:     # reported through the value, like any failing nested evaluation
+                    box['res'] = {'result': None, 'error': '#ERROR!'}
+            th = threading.Thread(target=work, daemon=True)
+            th.start()
+            th.join()
+            val = nested_value(box.get('res'))
+            if not act.get('use', True):
+                return None
+            if setter is None:
+                return val
+            if val is not None:
+                setter(val)
             return None
         if a in ('nested', 'nested_build'):
             if self.depth > act.get('maxdepth', 99):
